@@ -7,6 +7,7 @@ package main
 
 import (
 	"fmt"
+	"math/rand"
 	"io/ioutil"
 	"path/filepath"
 	"strings"
@@ -307,4 +308,99 @@ func genBotReal(rng *Rng, workdir string, stress bool) (s *engSession) {
 	}
 	s.update(day * 86400)
 	return s
+}
+
+// probeMidnightMaxLength: a configuration whose Maximum Trip Duration equals the bots' trip length, and an
+// outbound flight for which buildFlight draws second 0 of the day (rand.Intn can return 0).  At the update after
+// the return day the trip has then lasted length+1 whole days, the trip-length rule closes it before the promise
+// can be kept, and the bot - in debt, with no kept promise - is refused at its next promised trip.
+func probeMidnightMaxLength(rng *Rng, workdir string) []MonitorFailure {
+	s := newEngSession(workdir, "C08")
+	defer s.close()
+	defer func() {
+		if x := recover(); x != nil {
+			s.fail("C20", "planner-crashes", fmt.Sprintf("probe: the simulation's planner code panicked: %v", x))
+		}
+	}()
+	const L = 3
+	var p flap.FlapParams
+	p.TripLength, p.FlightsInTrip, p.FlightInterval = L, 10, 1
+	p.DailyTotal, p.MinGrounded = 50, 1
+	p.Promises.Algo = 1
+	p.Promises.MaxPoints, p.Promises.MaxDays, p.Promises.MaxStackSize, p.Promises.SmoothWindow, p.Promises.Degree = 8, 30, 3, 1, 1
+	p.Threads = 1
+	if s.eng.Administrator.SetParams(p) != nil {
+		return nil
+	}
+	aps := writeBotAirports(rng, s.dir, 2)
+	if s.eng.Airports.LoadAirports(filepath.Join(s.dir, "airports.dat")) != nil {
+		return nil
+	}
+	s.addTraveller(fmt.Sprintf("%02d%07d", 0, 1234567))
+	pp := s.trav[0].pp
+	planner, err1 := model.VerifNewPromisesPlanner(0.9, p.Promises.MaxDays)
+	jp, err2 := model.VerifNewJourneyPlanner(s.ldb)
+	if err1 != nil || err2 != nil {
+		return nil
+	}
+	bots := model.VerifNewBots(1)
+	la := flap.LatLon{Lat: aps[0].lat, Lon: aps[0].lon}
+	lb := flap.LatLon{Lat: aps[1].lat, Lon: aps[1].lon}
+	dist, _ := la.Distance(lb)
+	dur := int(uint64(float64(dist) / 0.244))
+	day := uint64(18600)
+	for k := 0; k < 4; k++ {
+		s.eng.UpdateTripsAndBackfill(flap.EpochTime(day * 86400))
+		day++
+	}
+	plan := func(target uint64, midnight bool) bool {
+		scale, err := planner.PrepareDays(s.eng, pp, flap.Days(day), L, 1)
+		if err != nil {
+			return false
+		}
+		for k := 0; k+1 < len(scale); k++ {
+			if uint64(scale[k][0]) == target && scale[k][1] > 0 && scale[k][1] <= 1000000000 && (k == 0 || scale[k-1][1] < scale[k][1]) {
+				sds, rc := planner.WhenWillWeFly(s.eng, pp, flap.EpochTime(day*86400), aps[0].code, aps[1].code, L, 1, scale[k][1])
+				if rc != 0 {
+					return false
+				}
+				if midnight { // a seed for which buildFlight's rand.Intn(86400-duration-1) is 0
+					for seed := int64(1); seed < 5000000; seed++ {
+						rand.Seed(seed)
+						if rand.Intn(86400-dur-1) == 0 {
+							rand.Seed(seed)
+							break
+						}
+					}
+				}
+				return jp.PlanTrip(aps[0].code, aps[1].code, L, pp, sds, s.eng) == nil
+			}
+		}
+		return false
+	}
+	s.eng.UpdateTripsAndBackfill(flap.EpochTime(day * 86400))
+	if !plan(day+1, true) || !plan(day+1+L+2, false) {
+		return nil
+	}
+	refusedBefore := uint64(0)
+	for d := 0; d < 2*L+6; d++ {
+		day++
+		now := flap.EpochTime(day * 86400)
+		s.eng.UpdateTripsAndBackfill(now)
+		recs, _ := jp.JourneysOn(now)
+		jp.SubmitFlights(bots, s.eng, now, true)
+		_, rf, _ := bots.Counts(0)
+		if rf > refusedBefore {
+			t, _ := s.get(0)
+			leaves := ""
+			for _, r := range recs {
+				for _, j := range r.Journeys {
+					leaves += fmt.Sprintf(" flight leaving at second %d of day %d", uint64(j.Flight.Start)%86400, uint64(j.Flight.Start)/86400)
+				}
+			}
+			s.fail("C20", "midnight-departure-of-a-maximum-length-trip-not-kept", fmt.Sprintf("real planner code, Maximum Trip Duration %d = trip length %d: the outbound of the first promised trip left in second 0 of its day, the update after the return day closed the trip by the trip-length rule instead of keeping the promise (kept clearance %d, balance %v), and the check-in for the next promised trip (%s) was refused", L, L, t.Kept.Clearance, float64(t.Balance), leaves))
+			refusedBefore = rf
+		}
+	}
+	return s.fails
 }
